@@ -20,7 +20,7 @@ def replay(w):
     except Exception:  # noqa
         return True
     twin = w.get("request") == "case-twin"
-    want_c = before[0] | {"SPDX-FileCopyrightText: 2019 OLD HOLDER" if twin else "SPDX-FileCopyrightText: 2020 Jane Doe"}
+    want_c = before[0] | {"SPDX-FileCopyrightText: 2019 OLD HOLDER" if twin else "Portions Copyright 2019 Jane Doe" if w.get("request") == "verbatim-notice" else "SPDX-FileCopyrightText: 2020 Jane Doe"}
 
     def holders(notices):
         from reuse.extract import _COPYRIGHT_PATTERNS
@@ -42,6 +42,8 @@ def replay(w):
         ok_c = all(h in ha for h in hb) and all((not ys) or (ha[h] and min(ha[h]) <= min(ys) and max(ha[h]) >= max(ys)) for h, ys in hb.items())
     else:
         ok_c = want_c <= after[0]
+    if w.get("request") == "verbatim-notice":
+        return not (ok_c and before[1] <= after[1] and before[2] <= after[2])
     ok = ok_c and (before[1] | {"GPL-3.0-or-later"}) <= after[1] and (before[2] | {"OLD CONTRIBUTOR" if twin else "Alice Example"}) <= after[2]
     return not ok
 
@@ -61,6 +63,8 @@ def run(ctx):
             conds.append(xh.Cond(f"acc {name} multi={multi} onto an existing header of kind '{old}'", "HDR.py", "_acc", {"style": name, "multi": multi, "replace": True, "nlines": 2, "old_kind": old, "carve": carve}, timeout=400 if ctx.tier == "quick" else 2000, twin="_acc_reach"))
     for name, multi in (("PythonCommentStyle", False), ("CCommentStyle", True), ("HtmlCommentStyle", True)):
         conds.append(xh.Cond(f"acc {name} multi={multi}: the request differs from what the file declares only in letter case (holder, contributor)", "HDR.py", "_acc", {"style": name, "multi": multi, "replace": True, "nlines": 2, "request": "case-twin", "carve": carve}, timeout=400 if ctx.tier == "quick" else 2000, twin="_acc_reach"))
+    for name, multi in (("PythonCommentStyle", False), ("CCommentStyle", True)):
+        conds.append(xh.Cond(f"acc {name} multi={multi} --merge-copyrights: the requested notice is kept verbatim and has text in front of its copyright word", "HDR.py", "_acc", {"style": name, "multi": multi, "replace": True, "merge": True, "nlines": 2, "request": "verbatim-notice", "carve": carve}, timeout=400 if ctx.tier == "quick" else 2000, twin="_acc_reach"))
     ctx.functions_encoded = ["reuse.templates.default_template.jinja2 (rendered by the real Jinja environment)", "reuse.header.create_header (existing info extracted from the found header and unioned), find_and_replace_header, add_new_header", "reuse.ReuseInfo.union / copy", "reuse.copyright.merge_copyright_lines (with --merge-copyrights)", "reuse.header._create_new_header post-condition"]
     ctx.bounds = dict(hc.BOUNDS, step="ONE annotate step from any pre-state in the bound - incl. a header the tool wrote earlier (top, middle, after a shebang) - in replace and --no-replace mode, with and without --merge-copyrights; the post-state is again a tool-written header, so one step covers sequences of such steps")
     ctx.stubs = hc.STUBS
